@@ -41,6 +41,7 @@ type propSpec struct {
 	Assumptions []string
 	RealStub    map[string]string
 	Extra       map[string]string
+	Exhaustive  bool
 }
 
 var props = map[string]propSpec{}
@@ -394,6 +395,7 @@ func aggregate(sums []*harness.Summary) *aggT {
 	a.Faults, a.Probes, a.Others = map[string]int{}, map[string]int{}, map[string]int{}
 	for _, s := range sums {
 		a.Runs += s.Runs
+		a.Evals += s.Evals
 		a.Nontrivial += s.Nontrivial
 		a.Steps += s.Steps
 		a.SimSeconds += s.SimSeconds
@@ -728,7 +730,8 @@ func writeEvidence(prop, tier string, master uint64, spec propSpec, a *aggT, det
 		runsPerHour = float64(a.Runs) / wall * 3600
 	}
 	cov := map[string]any{
-		"evaluations":          a.Runs,
+		"evaluations":          a.Evals,
+		"simulated_runs":       a.Runs,
 		"distinct_nontrivial":  len(a.hashSet),
 		"rule":                 spec.Rule,
 		"samples":              samples,
@@ -741,7 +744,7 @@ func writeEvidence(prop, tier string, master uint64, spec propSpec, a *aggT, det
 		"real_vs_stub":         spec.RealStub,
 		"determinism_selftest": det,
 		"worker_processes":     workers,
-		"exhaustive":           false,
+		"exhaustive":           spec.Exhaustive,
 	}
 	if len(a.Others) > 0 {
 		cov["other_property_failures_seen"] = a.Others
